@@ -14,3 +14,90 @@ contract('saml2_tophat.sigver:parse_xmlsec_output',
          modifies=[],
          loops={0: {'inv': ["forall(lambda j: seq0[j] != 'OK' and seq0[j] != 'FAIL', 0, i0)"]}},
          clauses_from={'C20': ['C20-okline', 'true']})
+
+# ------------------------------------------------------------------------------------------------
+# Ghost facts about a received document (E-PARSE: parsing is a deterministic function of the text)
+ghost('is_resp', ['Val'], 'Bool')       # the text parses as some samlp response element
+ghost('RP', ['Val'], 'Bool')            # ... and that element carries a ds:Signature child
+ghost('RV', ['Val', 'Val'], 'Bool')     # RV(sec, text): the response-level signature passes _check_signature in context sec
+ghost('schema_valid', ['Val'], 'Bool')  # validate.valid_instance accepts the object
+
+SRT = "Inst('saml2_tophat.samlp:StatusResponseType_')"
+SC = 'saml2_tophat.sigver:SecurityContext'
+
+contract('saml2_tophat.samlp:any_response_from_string', trusted=True, params=['xmlstr'], returns='Opt(%s)' % SRT,
+         ensures=['(result is not None) == is_resp(xmlstr)',
+                  'implies(result is not None, truthy(result.signature) == RP(xmlstr))',
+                  'implies(result is not None, fresh(result))'],
+         raises={'Exception': 'True'}, assumptions=['E-PARSE', 'E-DEFUSED'])
+
+contract('saml2_tophat.validate:valid_instance', trusted=False, pure=True, params=['instance'], returns='Bool',
+         ensures=['result is True', 'schema_valid(instance)'],
+         raises={'NotValid': 'not schema_valid(instance)', 'ValueError': 'not schema_valid(instance)',
+                 'KeyError': 'not schema_valid(instance)', 'AttributeError': 'not schema_valid(instance)',
+                 'TypeError': 'not schema_valid(instance)'},
+         note='abstract contract used by callers: schema_valid is DEFINED as "valid_instance returns normally"; what that '
+              'implies about the object is the subject of C13 (per-class contracts generated from the tables)')
+
+
+# ================================================================================================ C01 / C03 / C10 / C20
+# E-XMLSEC: what the external tool establishes when it reports OK for
+#   xmlsec1 --verify --enabled-reference-uris empty,same-doc --pubkey-cert-pem <certfile> --id-attr:ID <node_name>
+#           --node-id <node_id> <doc>
+ghost('XS_OK', ['Val', 'Val', 'Val', 'Val'], 'Bool')    # (doc, node_name, node_id, certfile)
+ghost('tmpfile', ['Val'], 'Val')        # name of the temporary file make_temp creates for given content
+ghost('pem', ['Val'], 'Val')            # PEM armour of a base64 certificate body (pem_format)
+ghost('md_certs', ['Val', 'Val'], 'Seq')    # signing certificates the metadata store holds for an entity id
+ghost('inst_certs', ['Val'], 'Seq')     # certificates embedded in the KeyInfo of an element's own Signature
+ghost('cert_ok', ['Val', 'Val'], 'Bool')    # CertHandler.verify_cert accepts the certificate file
+
+contract('saml2_tophat.sigver:pem_format', trusted=True, pure=True, params=['key'], types={'key': 'Str'}, returns='Bytes',
+         ensures=['result == pem(key)'], assumptions=['A-STR'], note='string armour; repository code, 4 lines')
+contract('saml2_tophat.sigver:make_temp', trusted=True, pure=True, params=['string', 'suffix', 'decode', 'delete'],
+         defaults={'suffix': '', 'decode': True, 'delete': True}, returns='Tuple(Any, Str)',
+         ensures=['implies(not truthy(decode), result[1] == tmpfile(string))', 'truthy(result[1])'], assumptions=['E-TMPFILE'])
+contract('saml2_tophat.sigver:cert_from_instance', trusted=False, pure=True, params=['instance'], returns='List(Str)',
+         ensures=['seq(result) == inst_certs(instance)'], modifies=[])
+contract('saml2_tophat.mdstore:MetaData.certs', trusted=False, pure=True, returns='List(Str)',
+         types={'entity_id': 'Opt(Str)', 'descriptor': 'Str', 'use': 'Str'},
+         ensures=["implies(descriptor == 'any' and use == 'signing', seq(result) == md_certs(self, entity_id))"],
+         raises={'KeyError': "len(md_certs(self, entity_id)) == 0"}, modifies=[])
+contract('saml2_tophat.sigver:CertHandler.verify_cert', trusted=False, pure=True, returns='Bool',
+         types={'cert_file': 'Any'}, ensures=['truthy(result) == cert_ok(self, cert_file)'],
+         raises={'Exception': 'True'}, modifies=[])
+contract(SC + '.verify_signature', trusted=False, pure=True,
+         types={'signedtext': 'Any', 'cert_file': 'Any', 'cert_type': 'Any', 'node_name': 'Any', 'node_id': 'Any',
+                'id_attr': 'Any'},
+         ensures=[('C20-ok-means-verified', 'implies(truthy(result), XS_OK(signedtext, node_name, node_id, ite(truthy(cert_file), cert_file, self.cert_file)))')],
+         raises={'XmlsecError': 'True', 'OSError': 'True', 'Exception': 'True'}, modifies=[])
+
+_ISS = ("ite(item.issuer is not None and item.issuer.text is not None, vstr(strip(item.issuer.text)), "
+        "ite(issuer is not None and issuer.text is not None, vstr(strip(issuer.text)), None))")
+_USED = ("(truthy(self.metadata) and len(md_certs(self.metadata, ISS)) > 0 and k < len(md_certs(self.metadata, ISS)) "
+         " and XS_OK(decoded_xml, node_name, item.id, tmpfile(pem(md_certs(self.metadata, ISS)[k])))) or "
+         "(not (truthy(self.metadata) and len(md_certs(self.metadata, ISS)) > 0) and not truthy(self.only_use_keys_in_metadata) "
+         " and k < len(inst_certs(item)) and XS_OK(decoded_xml, node_name, item.id, tmpfile(pem(inst_certs(item)[k]))))")
+contract(SC + '._check_signature',
+         types={'decoded_xml': 'Any', 'item': "Inst('saml2_tophat:SamlBase')", 'node_name': 'Any', 'origdoc': 'Any',
+                'id_attr': 'Any', 'must': 'Any', 'only_valid_cert': 'Any',
+                'issuer': "Opt(Inst('saml2_tophat.saml:Issuer'))"},
+         returns="Inst('saml2_tophat:SamlBase')",
+         requires=["isinstance(item, 'saml2_tophat.saml:AssertionType_') or isinstance(item, 'saml2_tophat.samlp:RequestAbstractType_') "
+                   "or isinstance(item, 'saml2_tophat.samlp:StatusResponseType_')"],
+         lets={'ISS': _ISS},
+         local_types={'certs': 'List(Tuple(Any, Str))', '_certs': 'List(Str)', 'last_pem_file': 'Opt(Str)'},
+         ensures=[('same-item', 'result == item'),
+                  # C01/C03/C10: normal return => the signature verified (tool said OK for this element id) under a
+                  # certificate metadata holds for the issuer -- or, only when metadata has none and the configuration
+                  # allows it, under a certificate embedded in the element's own signature
+                  ('C03-verified-under-issuer-key', 'exists(lambda k: %s, 0, len(md_certs(self.metadata, ISS)) + len(inst_certs(item)))' % _USED)],
+         raises={'Exception': 'True'},
+         modifies=[],
+         loops={0: {'inv': ['len(certs) == i0',
+                            'forall(lambda k: typed(certs[k], "Tuple(Any, Str)"), 0, i0)',
+                            'forall(lambda k: certs[k][1] == tmpfile(pem(seq0[k])) and truthy(certs[k][1]), 0, i0)'],
+                    'modifies': ['list(certs)']},
+                1: {'inv': ['not truthy(verified)']}},
+         comps={0: {'elem': ['res_i[1] == tmpfile(pem(src_i))', 'truthy(res_i[1])'], 'type': 'Tuple(Any, Str)'}},
+         clauses_from={'C01': ['C03-verified-under-issuer-key'], 'C03': ['C03-verified-under-issuer-key'],
+                       'C10': ['C03-verified-under-issuer-key'], 'C20': ['C03-verified-under-issuer-key']})
